@@ -20,7 +20,7 @@ import re
 import zlib
 from pathlib import Path
 from typing import Any, Dict, List, Optional, Sequence, Tuple
-from urllib.parse import unquote, urlsplit
+from urllib.parse import quote, unquote, urlsplit
 
 SUMMARY_PAGES = ("moduleIndex", "classIndex", "nameIndex", "undoccedSummary", "all-documents")
 
@@ -82,6 +82,7 @@ def project_system(system: Any) -> Dict[str, Any]:
             "ownpage": o.documentation_location is model.DocLocation.OWN_PAGE,
             "file": file_id(unquote(u.path)), "frag": unquote(u.fragment),
             "incontents": (par.contents.get(o.name) is o) if par is not None else (o in system.rootobjects),
+            "qid": quote(o.fullName()),
             "doc": any(s.docstring is not None for s in o.docsources()),
             "docsrc": next((s.fullName() for s in o.docsources() if s.docstring is not None), o.fullName()),
             "initial": o.name[0].upper(), "dupname": " " in o.name, "dupfull": " " in o.fullName(),
@@ -226,6 +227,8 @@ def crawl(outdir: str) -> Dict[str, Any]:
                 symlinks[rel] = os.readlink(p)
     files.sort()
     site: Dict[str, Any] = {"files": [file_id(f) for f in files], "rawfiles": files, "symlinks": symlinks,
+                            # decoded names of the files whose on-disk name is percent-encoded
+                            "encfiles": sorted({file_id(unquote(f)) for f in files if unquote(f) != f}),
                             "anchors": {}, "nameanchors": {}, "links": [], "entries": [], "inv": [], "alldocs": [],
                             "searchindex": [], "fullsearchindex": [], "parse_errors": []}
     for rel in files:
